@@ -217,6 +217,8 @@ def run_large(case, ctx):
     if case["i"] + 1 < len(LARGE):
         partners.append(("the next larger graph", build(*LARGE[case["i"] + 1]), None))
     partners.append(("a path on 81 vertices", _path(81), None))
+    if "partner" in case:
+        partners = partners[case["partner"]:case["partner"] + 1]
     with _seam.installed():
         for what, B, truth2 in partners:
             for X, Y in ((A, B), (B, A)):
@@ -246,7 +248,8 @@ def cases(tier):
     import itertools
 
     for i in (range(len(LARGE)) if tier == "thorough" else (0, 2, 5)):
-        yield {"kind": "large", "i": i}
+        for pk in range(3):          # one case per partner (balance: each call takes seconds)
+            yield {"kind": "large", "i": i, "partner": pk}
     for c in small_cases(tier):
         yield c
     nc = len(coll_cover(tier))
